@@ -1,6 +1,7 @@
 import SC.Properties.C04
 import SC.Properties.C09
 import SC.Proofs.RIndex
+import SC.Proofs.RCountByte
 /-!
 # C07 — strcase and bytcase are the same function on the same bytes
 
@@ -40,6 +41,11 @@ theorem index_parity (cfg : A.Cfg) (s sub : Bytes) (r : Int) :
     A.Index (str cfg) s sub = A.Index (byt cfg) s sub ∧ A.Contains (str cfg) s sub = A.Contains (byt cfg) s sub ∧
     A.IndexRune (str cfg) s r = A.IndexRune (byt cfg) s r ∧ A.ContainsRune (str cfg) s r = A.ContainsRune (byt cfg) s r := by
   simp only [A.Index_eq, A.Contains_eq, A.IndexRune_eq, A.ContainsRune_eq, and_self]
+
+/-- Count / Cut: both packages refine the same specification -/
+theorem count_cut_parity (cfg : A.Cfg) (s sub : Bytes) :
+    A.Count (str cfg) s sub = A.Count (byt cfg) s sub ∧ A.Cut (str cfg) s sub = A.Cut (byt cfg) s sub := by
+  simp only [A.Count_eq, A.Cut_eq, and_self]
 
 example : A.Compare (str {}) [0xFF, 0x41] [0xEF, 0xBF, 0xBD, 0x61] = 0 := by decide +kernel
 end C07
